@@ -37,6 +37,10 @@ HARNESSES = {
     # stand-ins for functions left external in the Verus units
     'builder_new_is_empty': (True, 'none (no inputs)', ['src/portable.rs PortableRegistryBuilder::new'], 600, 14),
     'map_into_portable_in_order': (False, '<= 3 elements', ['src/registry.rs Registry::map_into_portable'], 1200, 14),
+    # cross-checks of contracts ASSUMED on std functions in the Verus units
+    'std_u8_ascii_classes': (True, 'none (all u8)', ['core u8::is_ascii_lowercase / is_ascii_uppercase / is_ascii_digit (assumed contract A11)'], 600, 14),
+    'std_strip_prefix_small': (False, 'ASCII strings of length <= 6, pattern "r#"', ['core str::strip_prefix (assumed contract A11)'], 1200, 14),
+    'std_slice_iter_small': (False, 'slices of <= 5 bytes', ['core slice::Iter position / last, <[T]>::split_last (assumed contracts A11)'], 1200, 14),
     'metatype_new_identity': (True, 'none (fixed pool of types, no symbolic input)', ['src/meta_type.rs MetaType::new / type_id / is_phantom'], 600, 14),
 }
 
